@@ -257,7 +257,7 @@ func (c *Ctx) AllFuncs() map[*ssa.Function]bool {
 func (c *Ctx) PkgFuncs(p *packages.Package) []*ssa.Function {
 	var out []*ssa.Function
 	for f := range c.AllFuncs() {
-		if f.Pkg != nil && f.Pkg.Pkg == p.Types && f.Blocks != nil && f.Synthetic == "" {
+		if f.Pkg != nil && f.Pkg.Pkg == p.Types && f.Blocks != nil && (f.Synthetic == "" || f.Parent() != nil) {
 			out = append(out, f)
 		} else if f.Pkg == nil && f.Origin() != nil && f.Origin().Pkg != nil && f.Origin().Pkg.Pkg == p.Types && f.Blocks != nil {
 			out = append(out, f) // generic instantiation
